@@ -518,9 +518,13 @@ def explore_config(part, path, spec, cfg, D, rot, tmp):
 # part (a): helpers
 
 
-def pat_points(pat, shape):
+def pat_points(pat, shape, place="in"):
     """2 animals x 3 nodes (A, B of the label alphabet), bit (3*j+k) of pat set = node k of animal j labelled."""
     pts = np.stack([LS.points("A", pat & 7), LS.points("B", pat >> 3 & 7)]).astype(np.float32)  # (2,3,2)
+    if place == "out":  # animal B wholly outside the 40x56 frame
+        pts[1, :, 0] += 60.0
+    elif place == "edge":  # animal B on the left border strip (every labelled node at x = 0)
+        pts[1, :, 0] = np.where(np.isnan(pts[1, :, 0]), np.nan, 0.0)
     if shape == "b4":
         return pts[None]
     if shape == "b3":
@@ -614,6 +618,13 @@ def a_specs(tier):
             for pat in (0b001001, 0b001000, 0b000001, 0):
                 for ni in (1, 2):
                     out.append({"fn": "generate_multiconfmaps", "pat": pat, "shape": "cen", "layout": layout, "stride": stride, "ni": ni, "cen": True})
+    # animal B wholly outside the frame / on the border strip (annotations just out of frame are ordinary data)
+    placed = []
+    for sp in out:
+        if sp.get("shape") in ("b4", "b3", "cen", "cen2") and "pat" in sp and sp.get("layout") == "sub" and sp["pat"] in (63, 0b111101, 0b111000, 0b001001, 0b001000):
+            for place in ("out", "edge"):
+                placed.append(dict(sp, place=place))
+    out += placed
     augs = ["uniform_noise", "gaussian_noise", "contrast", "brightness", "affine", "erase", "mixup", "none"]
     for aug in augs:
         for p in (0.0, 1.0):
@@ -694,7 +705,7 @@ def build_a(spec, label_paths=None):
     if fn in ("generate_centroids", "find_points_bbox_midpoint"):
         from sleap_nn.data import instance_centroids as ic
 
-        t, owner = lay(pat_points(spec["pat"], spec["shape"]), spec["layout"])
+        t, owner = lay(pat_points(spec["pat"], spec["shape"], spec.get("place", "in")), spec["layout"])
         w["points"] = t
         if fn == "generate_centroids":
             return ic.generate_centroids, (t,), {"anchor_ind": spec["anchor"]}, w
@@ -702,7 +713,7 @@ def build_a(spec, label_paths=None):
     if fn == "make_centered_bboxes":
         from sleap_nn.data.instance_cropping import make_centered_bboxes
 
-        t, owner = lay(pat_points(spec["pat"], spec["shape"]), spec["layout"])
+        t, owner = lay(pat_points(spec["pat"], spec["shape"], spec.get("place", "in")), spec["layout"])
         w["centroids"] = t
         return make_centered_bboxes, (t, spec["box"][0], spec["box"][1]), {}, w
     if fn == "generate_crops":
@@ -724,7 +735,7 @@ def build_a(spec, label_paths=None):
             return rz.apply_sizematcher, (img,), {"max_height": spec["mhw"][0], "max_width": spec["mhw"][1]}, w
         if fn == "apply_pad_to_stride":
             return rz.apply_pad_to_stride, (img,), {"max_stride": spec["stride"]}, w
-        inst, _ = lay(pat_points(spec["pat"], "b4"), spec["layout"])
+        inst, _ = lay(pat_points(spec["pat"], "b4", spec.get("place", "in")), spec["layout"])
         w["instances"] = inst
         return rz.apply_resizer, (img, inst), {"scale": spec["scale"]}, w
     if fn in ("apply_normalization", "convert_to_grayscale", "convert_to_rgb"):
@@ -734,7 +745,7 @@ def build_a(spec, label_paths=None):
         w["image"] = img
         return getattr(nz, fn), (img,), {}, w
     if fn in ("generate_confmaps", "generate_multiconfmaps", "generate_pafs"):
-        t, _ = lay(pat_points(spec["pat"], spec["shape"]), spec["layout"])
+        t, _ = lay(pat_points(spec["pat"], spec["shape"], spec.get("place", "in")), spec["layout"])
         w["instances"] = t
         hw = (LS.H + 8, LS.W + 8)
         if fn == "generate_confmaps":
@@ -754,7 +765,7 @@ def build_a(spec, label_paths=None):
         from sleap_nn.data import augmentation as ag
 
         img, _ = lay(test_image(spec["img"]), spec["layout"])
-        inst, _ = lay(pat_points(spec["pat"], spec["shape"]), spec["layout"])
+        inst, _ = lay(pat_points(spec["pat"], spec["shape"], spec.get("place", "in")), spec["layout"])
         w.update(image=img, instances=inst)
         aug, p = spec["aug"], spec["p"]
         if aug in ("uniform_noise", "gaussian_noise", "contrast", "brightness", "none"):
